@@ -15,7 +15,7 @@ def mc_timer_driver(v, wd, tier):
 
 
 def family(v, wd, prop, name, tasks, progs, max_t, spawn="both", mc=True, what="", module="Gen_AsyncMod", tol=0, tick_ns=1_000_000_000,
-           pe_forward=False):
+           pe_forward=False, heap=False):
     consts = f"Tasks <- TasksN NT = {tasks} Progs <- {progs} MaxT = {max_t} Tol = {tol}"
     beh = os.path.join(wd, f"beh_{name}.txt")
     props = "PROPERTIES NoAdvanceWhileRunnable TimeMonotone\n" if mc else ""
@@ -28,7 +28,12 @@ def family(v, wd, prop, name, tasks, progs, max_t, spawn="both", mc=True, what="
     shards, total = vlib.shard_lines(beh, wd, vlib.NCPU, prefix=f"sh_{name}_")
     log(f"[{prop}] Gen_AsyncMod[{name}]: {total} program assignments in {g.wall:.1f}s")
     extra = ["--tick-ns", str(tick_ns)] + (["--pe-forward", "1"] if pe_forward else [])
-    outs = vlib.run_vh_parallel([["asyncm", "replay", s, "--max-t", str(max_t), "--spawn", spawn] + extra for s in shards if os.path.getsize(s) > 0])
+    cmds = [["asyncm", "replay", s, "--max-t", str(max_t), "--spawn", spawn] + extra for s in shards if os.path.getsize(s) > 0]
+    outs = vlib.run_vh_parallel(cmds)
+    if heap:
+        # the same programs with the BinaryHeap event set (des built without the `cqueue` feature)
+        vlib.build_harness_heap()
+        outs += vlib.run_vh_parallel(cmds, binary=vlib.VHH)
     tot = vlib.collect(v, outs, "asyncm", f"running async programs [{name}]")
     v.cov["traces_validated_against_impl"] += int(tot.get("replays", 0))
     v.cov["evaluations"] += int(tot.get("checks", 0))
@@ -58,12 +63,12 @@ def c05(tier):
     vlib.build_harness()
     wd = workdir("C05")
     mc_timer_driver(v, wd, tier)
-    family(v, wd, "C05", "timers1", 2, "ProgsT1", 14, what="one timer step per task + trailing sleep")
+    family(v, wd, "C05", "timers1", 2, "ProgsT1", 14, what="one timer step per task + trailing sleep (both event-set backends)", heap=True)
     family(v, wd, "C05", "timers2", 2, "ProgsT2", 16, what="two timer steps per task (13 kinds: sleep, timeout, select, reset, poll-and-drop) + trailing sleep")
     family(v, wd, "C05", "interval", 1, "ProgsIvl", 24, what="interval with Burst / Delay / Skip and sleeps that miss ticks")
     family(v, wd, "C05", "interval_ms", 1, "ProgsIvlMs", 120, tol=5, tick_ns=1_000_000,
            what="10 ms interval on a millisecond grid: ticks picked up <= 5 ms late (not missed) and later (missed)")
-    family(v, wd, "C05", "chan", 2, "ProgsChan", 14, what="timeouts around receives, module-to-task messages")
+    family(v, wd, "C05", "chan", 2, "ProgsChan", 14, what="timeouts around receives, module-to-task messages (both event-set backends)", heap=True)
     family(v, wd, "C05", "life", 2, "ProgsLife", 16, what="module restarted from a task while another task has timers pending")
     if tier == "thorough":
         family(v, wd, "C05", "timers3_single", 1, "ProgsTimers1", 20, what="three timer steps in one task")
